@@ -244,8 +244,32 @@ def opEscape (args : List String) : String :=
     | none => "bad-request"
   | _ => "bad-request"
 
+def opRunProg (args : List String) : String :=
+  match args with
+  | [exec, kind, prog, hay, start] =>
+    match start.toNat? with
+    | some st =>
+      let r := VM.runProgLine exec kind prog hay st 20000000
+      -- a reported well-formedness failure of the dumped program is part of the answer
+      match VM.parseProg prog with
+      | .ok p => if VM.wfProg p then r else "not-wf " ++ r
+      | .error _ => r
+    | none => "bad-request"
+  | _ => "bad-request"
+
+def opEsFind (iter : Bool) (args : List String) : String :=
+  match args with
+  | [flags, ast, hay, start] =>
+    match start.toNat? with
+    | some st => if iter then ES.esIterLine flags ast hay st 100000 else ES.esFindLine flags ast hay st 100000
+    | none => "bad-request"
+  | _ => "bad-request"
+
 def answer (line : String) : String :=
   match line.trimAscii.toString.splitOn " " with
+  | "esfind" :: args => opEsFind false args
+  | "esiter" :: args => opEsFind true args
+  | "runprog" :: args => opRunProg args
   | "prop" :: args => opProp args
   | "cps" :: args => opCps args
   | "iter" :: args => opIter args
